@@ -669,6 +669,14 @@ func ToEntry(n Node) (e *Entry) {
 		if g == nil {
 			return newError(n, "unknown group: %s", s.Name)
 		}
+		if ms.converting[g] {
+			return newError(n, "grouping %s uses itself", s.Name)
+		}
+		if ms.converting == nil {
+			ms.converting = map[Node]bool{}
+		}
+		ms.converting[g] = true
+		defer delete(ms.converting, g)
 		// We need to return a duplicate so we resolve properly
 		// when the group is used in multiple locations and the
 		// grouping has a leafref that references outside the group.
